@@ -269,7 +269,7 @@ PROPS["C04"] = {
 PROPS["C20"] = {
     "parts": [{"name": "gw", "pkg": "c20", "chk": "chk_c20_gw", "args": ["gw"]},
               {"name": "strict", "pkg": "c20", "chk": "chk_c20_strict", "args": ["strict"]},
-              {"name": "trie", "pkg": "c20", "chk": "chk_c20_trie", "args": ["trie"]}],
+              {"name": "trie", "pkg": "c20", "chk": "chk_c20_trie_model", "args": ["trie"]}],
     "reasons": {"gw": {"1": "a string was accepted as a route template although its text is not the rendering of the accepted structure, or it has illegal path characters / ill-formed field paths (it was turned into some other route)",
                        "2": "the rendering of a well-formed template was rejected or given another structure (verb, variables)",
                        "3": "a generated template is outside the hypothesis of the round-trip theorem: generator and theorem no longer talk about the same language",
